@@ -500,17 +500,25 @@ func (d decoder) name(s *cryptobyte.String) (string, error) {
 
 func (d decoder) nameLabels(s *cryptobyte.String) ([]string, error) {
 	var labels []string
+	// A compression pointer must point to a prior occurrence of a name.
+	// Each pointer must point before the place where the sequence of
+	// labels that contains it started. This guarantees that decoding
+	// terminates.
+	var limit uintptr
+	if !s.Empty() {
+		limit = uintptr(unsafe.Pointer(&(*s)[0]))
+	}
 	for {
 		for !s.Empty() && (*s)[0]&0xc0 == 0xc0 { // pointer
-			current := uintptr(unsafe.Pointer(&(*s)[0]))
 			var offset uint16
 			if !s.ReadUint16(&offset) {
 				return nil, ErrDecodeError
 			}
 			offset &= 0x3fff
-			if int(offset) >= len(d.raw) || uintptr(unsafe.Pointer(&d.raw[offset])) >= current {
+			if int(offset) >= len(d.raw) || uintptr(unsafe.Pointer(&d.raw[offset])) >= limit {
 				return nil, ErrDecodeError
 			}
+			limit = uintptr(unsafe.Pointer(&d.raw[offset]))
 			ss := cryptobyte.String(d.raw[offset:])
 			s = &ss
 		}
